@@ -1,6 +1,7 @@
 import Driver.Common
 import Model.Integrals
-open Lean Drv Integrals
+import Model.McSession
+open Lean Drv Integrals McSession
 
 partial def parseI (j : Json) : Except String IExpr := do
   let k ← getStr j "k"
@@ -30,6 +31,76 @@ def pairs (j : Json) : Except String (List (String × String)) := do
     match (← strList e) with
     | [n, v] => pure (n, v)
     | _ => throw "bad-op"
+
+
+/-! ### sessions (Model/McSession.lean on the describing instance `logEnv`) -/
+
+def srcName : Source → String
+  | .native t => "native:" ++ t
+  | .user t => "user:" ++ t
+
+def evJson : Ev → Json
+  | .seed s => jArr [jStr "seed", jNat s]
+  | .consume k => jArr [jStr "consume", jNat k]
+  | .call src N R => jArr [jStr "call", jStr (srcName src), jNat N, jNat R]
+
+def parseOp (j : Json) : Except String Op := do
+  match (← getStr j "k") with
+  | "new" => pure (.newBiogeme (← getNat j "seed") (← pairs (← j.getObjVal? "decl")) (← getNat j "R"))
+  | "setR" => pure (.setNumberOfDraws (← getNat j "i") (← getNat j "R"))
+  | "evalB" => pure (.evalBiogeme (← getNat j "i"))
+  | "evalE" => pure (.evalExpr (← pairs (← j.getObjVal? "decl")) (← getNat j "R"))
+  | "consume" => pure (.consume (← getNat j "n"))
+  | "createF" => pure (.createFunction (← pairs (← j.getObjVal? "decl")) (← getNat j "R"))
+  | "callF" => pure .callFunction
+  | _ => throw "bad-op"
+
+structure StepOut where
+  err : Option Err
+  db : Option (Table Cell)
+  engine : Option (Table Cell)
+  ids : List (String × Nat)
+  nd : Option Nat
+
+abbrev CallKey := List Ev
+
+def tableKeys (t : Table Cell) : List CallKey :=
+  (t.flatMap fun m => m.flatMap fun row => row.map fun c => c.log).eraseDups
+
+def jTable (keys : List CallKey) : Option (Table Cell) → Json
+  | none => Json.null
+  | some t => jArr (t.map fun m => jArr (m.map fun row => jArr (row.map fun c =>
+      jArr [jNat (keys.idxOf c.log), jNat c.n, jNat c.r])))
+
+def idsOf (d : Decl) : List (String × Nat) := (declNames d).map fun n => (n, drawId (declNames d) n)
+
+/-- one operation on the model + what the harness compares after it -/
+def sessionStep (E : Env (List Ev) Cell) (fdecl : Decl) (w : World (List Ev) Cell) (op : Op) : World (List Ev) Cell × StepOut :=
+  let r := step E w op
+  let w' := r.1
+  match op with
+  | .newBiogeme _ d _ =>
+    let created := w'.objs.length > w.objs.length
+    let o := if created then w'.objs.getLast? else none
+    (w', ⟨r.2, w'.theDraws, o.bind (·.engine), idsOf d, o.map (·.numberOfDraws)⟩)
+  | .evalBiogeme i =>
+    let o := w'.objs[i]?
+    (w', ⟨r.2, w'.theDraws, o.bind (·.engine), (o.map fun x => idsOf x.decl).getD [], o.map (·.numberOfDraws)⟩)
+  | .setNumberOfDraws i _ =>
+    let o := w'.objs[i]?
+    (w', ⟨r.2, w'.theDraws, o.bind (·.engine), (o.map fun x => idsOf x.decl).getD [], o.map (·.numberOfDraws)⟩)
+  | .evalExpr d _ => (w', ⟨r.2, w'.theDraws, none, idsOf d, none⟩)
+  | .consume _ => (w', ⟨r.2, w'.theDraws, none, [], none⟩)
+  | .createFunction d _ => (w', ⟨r.2, w'.theDraws, none, idsOf d, none⟩)
+  | .callFunction => (w', ⟨r.2, w'.theDraws, none, idsOf fdecl, none⟩)
+
+/-- `fdecl`: the draw variables of the function created last (the one `callFunction` calls) -/
+def sessionRun (E : Env (List Ev) Cell) : Decl → World (List Ev) Cell → List Op → List StepOut
+  | _, _, [] => []
+  | fdecl, w, op :: rest =>
+    let fdecl' := match op with | .createFunction d _ => d | _ => fdecl
+    let r := sessionStep E fdecl' w op
+    r.2 :: sessionRun E fdecl' r.1 rest
 
 def handle (j : Json) : Except String Json := do
   let op ← getStr j "op"
@@ -100,8 +171,10 @@ def handle (j : Json) : Except String Json := do
     let name ← getStr j "name"
     let all := allLiterals free fixed rvs draws cols
     let idx := literalIndex all name
+    -- the two numbers of every draw variable's signature line: literal id and column of the draw table
+    let drawIds := jArr (draws.map fun n => jArr [jStr n, jNat (literalIndex all n), jNat (drawId draws n)])
     if !(← getBool j "eval") then
-      pure (Json.mkObj [("index", jNat idx), ("count", jNat all.length)])
+      pure (Json.mkObj [("index", jNat idx), ("count", jNat all.length), ("draw_ids", drawIds)])
     else
       let betas ← floatList (← j.getObjVal? "betas")
       let rows ← floatMat (← j.getObjVal? "rows")
@@ -113,11 +186,27 @@ def handle (j : Json) : Except String Json := do
         let R ← getNat j "R"
         if R = 0 then throw "bad-op"
         let vals := rows.zipIdx.map fun (row, n) => monteCarlo draws table betas row n R d
-        pure (Json.mkObj [("index", jNat idx), ("count", jNat all.length), ("values", jFloats vals)])
+        pure (Json.mkObj [("index", jNat idx), ("count", jNat all.length), ("draw_ids", drawIds), ("values", jFloats vals)])
       else
         let xi : String → Float := fun _ => 0.0
-        pure (Json.mkObj [("index", jNat idx), ("count", jNat all.length),
+        pure (Json.mkObj [("index", jNat idx), ("count", jNat all.length), ("draw_ids", drawIds),
           ("values", jFloats (rows.map fun row => evalI betas row xi d))])
+  | "session" =>
+    let native ← strList (← j.getObjVal? "native")
+    let user ← strList (← j.getObjVal? "user")
+    let N ← getNat j "N"
+    let seed0 ← getNat j "seed0"
+    let ops ← (← getArr j "ops").toList.mapM parseOp
+    let E := logEnv native user N
+    let outs := sessionRun E [] ⟨[.seed seed0], none, []⟩ ops
+    let keys := (outs.flatMap fun o => (o.db.map tableKeys).getD [] ++ (o.engine.map tableKeys).getD []).eraseDups
+    pure (Json.mkObj [
+      ("calls", jArr (keys.map fun k => jArr (k.map evJson))),
+      ("steps", jArr (outs.map fun o => Json.mkObj [
+        ("err", match o.err with | some e => jStr (errName e) | none => Json.null),
+        ("db", jTable keys o.db), ("engine", jTable keys o.engine),
+        ("ids", jArr (o.ids.map fun p => jArr [jStr p.1, jNat p.2])),
+        ("nd", match o.nd with | some n => jNat n | none => Json.null)]))])
   | "seed_policy" =>
     let seed ← getNat j "seed"
     pure (Json.mkObj [("state", jStr (seedPolicy (fun s => s!"fresh:{s}") seed "current"))])
